@@ -42,6 +42,8 @@ type ftrans struct {
 	holdReadErr chan struct{} // a Read that is about to return an error parks here first
 	heldReadErr int
 	holdIsOpen  chan struct{} // IsOpen parks here (while the adapter holds its read lock)
+	holdOpen    chan struct{} // Open parks here before it connects (a slow dial)
+	heldOpen    int
 	heldIsOpen  int
 
 	// scripted peer
@@ -72,7 +74,14 @@ func (t *ftrans) Open() error {
 		}
 		return errors.New("dial tcp 127.0.0.1:1: connect: connection refused")
 	}
+	g := t.holdOpen
+	if g != nil {
+		t.heldOpen++
+	}
 	t.mu.Unlock()
+	if g != nil {
+		<-g
+	}
 	err := t.ScriptTransport.Open()
 	if err == nil {
 		t.mu.Lock()
@@ -171,13 +180,13 @@ func (t *ftrans) armOpenFailures(n int) {
 
 type ftSnap struct {
 	failOpens, openCalls, openFailed, inRead, readCalls, readErrs, heldReadErr, heldIsOpen, answered, collected int
-	opensOK, readOpen                                                                                           int
+	opensOK, readOpen, heldOpen                                                                                 int
 }
 
 func (t *ftrans) snap() ftSnap {
 	t.mu.Lock()
 	defer t.mu.Unlock()
-	return ftSnap{t.failOpens, t.openCalls, t.openFailed, t.inRead[t.opensOK], t.readCalls, t.readErrs, t.heldReadErr, t.heldIsOpen, t.answered, len(t.requests), t.opensOK, t.readOpen}
+	return ftSnap{t.failOpens, t.openCalls, t.openFailed, t.inRead[t.opensOK], t.readCalls, t.readErrs, t.heldReadErr, t.heldIsOpen, t.answered, len(t.requests), t.opensOK, t.readOpen, t.heldOpen}
 }
 
 // responseFor builds the peer's answer to a request frame: same _opid, a
